@@ -7,7 +7,7 @@ package forwarder
 // connection loop (http.ReadRequest, scheme fix-up, modifier stack, upgrade handling) runs over scripted request
 // bytes; the next hop is a recording RoundTripper.
 //
-//vf:assume C01: header lists of <=2 (quick) / <=3 (thorough) fields drawn from a 24-entry pool of names (end-to-end, hop-by-hop, Connection with nominations, Via, X-Forwarded-*, User-Agent, Authorization) with symbolic 2-byte printable values where the value is free; methods GET/POST; absolute- and origin-form targets with an escaped query; HTTP/1.0 and 1.1; bodies: none / Content-Length / chunked in 1 or 2 chunks (3 symbolic bytes); first or second request of a keep-alive connection
+//vf:assume C01: header lists of <=2 (quick) / <=3 (thorough) fields drawn from a 26-entry pool of names (end-to-end, hop-by-hop, Connection with nominations, Via, X-Forwarded-*, User-Agent, Authorization) with symbolic 2-byte printable values where the value is free; methods GET/POST; absolute- and origin-form targets with an escaped query; HTTP/1.0 and 1.1; bodies: none / Content-Length / chunked in 1 or 2 chunks (3 symbolic bytes); first or second request of a keep-alive connection
 //vf:assume C01: the next hop is a recording RoundTripper: what http.Transport does afterwards (Accept-Encoding: gzip, serialisation, connection reuse) and bodies near the 4 KiB / 32 KiB buffer sizes are outside
 
 import (
@@ -27,7 +27,7 @@ type vfFieldSpec struct {
 var vfFieldPool = []vfFieldSpec{
 	{"X-A", ""}, {"X-B", ""}, {"Accept", ""}, {"Cookie", ""}, {"Authorization", ""}, {"User-Agent", ""},
 	{"Keep-Alive", "timeout=5"}, {"Proxy-Connection", "keep-alive"}, {"Te", "trailers"}, {"Proxy-Authorization", ""}, {"Proxy-Authenticate", "x"},
-	{"Connection", "close"}, {"Connection", "X-B"}, {"Connection", "x-a, Keep-Alive"},
+	{"Connection", "close"}, {"Connection", "X-B"}, {"Connection", "x-a, Keep-Alive"}, {"Connection", "keep-alive, X-B"}, {"Connection", "X-A ,x-b"},
 	{"Via", "1.0 alpha"}, {"Via", ""}, {"X-Forwarded-For", "1.2.3.4"}, {"X-Forwarded-For", ""}, {"X-Forwarded-Proto", "https"},
 	{"X-Forwarded-Host", ""}, {"X-Forwarded-Url", ""},
 	{"Upgrade", "websocket"}, {"Connection", "Upgrade"}, {"Connection", "keep-alive, Upgrade"},
